@@ -3,6 +3,7 @@ package harness
 import (
 	"encoding/json"
 	"fmt"
+	"github.com/DataDog/datadog-traceroute/result"
 	"testing"
 
 	"pgregory.net/rapid"
@@ -473,18 +474,87 @@ func TestC06AllTTLs(t *testing.T) {
 // TestC06UDP6ChecksumSearch: a UDP/IPv6 probe whose computed checksum is zero must carry 0xffff (zero is
 // illegal over IPv6). The source port is chosen by the kernel, so the harness cannot construct the case;
 // it searches instead: every run of 255 probes has 255 independent 16-bit checksums.
+// TestC06Reuse: a configuration value that is run twice must emit, the second time, exactly what a fresh value
+// would: probes from the source port the second run reports, one flow, and the same path.
+func TestC06Reuse(t *testing.T) {
+	rec := NewRecorder("C06", "C06Reuse", "enumeration: the udp and tcp (default and Paris) configuration values run twice in a row over the same scripted world, 4 TTL ranges; oracle: every probe of the second run leaves from the source port that run reports and belongs to one flow, TTLs in order, and the second run reports as many hops and the same destination flag as the first; non-trivial always; exhaustive over that product")
+	rec.Exhaustive = true
+	RunCases(t, rec, func(yield func(*Scenario) bool) {
+		for _, v := range []string{"udp4", "udp6", "tcp", "tcp-paris"} {
+			for _, r := range [][2]int{{1, 3}, {1, 6}, {2, 5}, {4, 4}} {
+				sc := &Scenario{Variant: v, Strict: true, MinTTL: r[0], MaxTTL: r[1], TimeoutMs: 100, DelayMs: 1, PollMs: 100, Target: "93.184.216.34", Port: 443,
+					PktIDBase: 0x200, Script: FlowScript{DestDist: r[1], Default: HopSpec{DelayUs: 4000}}, Reuse: 2}
+				if sc.IsV6() {
+					sc.Target = "2001:db8:ffff::1"
+				}
+				if !yield(sc) {
+					return
+				}
+			}
+		}
+	}, func(t *testing.T, sc *Scenario, rec *Recorder) []Diff {
+		sc.earlier = nil
+		o := RunScenario(t, sc)
+		rec.CaseEnumerated(true, map[string]any{"variant": sc.Variant, "range": []int{sc.MinTTL, sc.MaxTTL}}, "variant:"+sc.Variant)
+		var ds []Diff
+		add := func(sig, f string, a ...any) { ds = append(ds, Diff{"C06", sig, fmt.Sprintf(f, a...)}) }
+		if o.Panic != "" || o.Deadlock != "" || o.Wire == nil {
+			return []Diff{{"C09", "crash", o.Panic + o.Deadlock}}
+		}
+		if o.Err != nil || o.Run == nil || len(sc.earlier) != 1 || sc.earlier[0].Err != nil || sc.earlier[0].Run == nil {
+			add("reuse-failed", "first run: %v, second run: %v", sc.earlier, o.Err)
+			return ds
+		}
+		first, second := sc.earlier[0].Run, o.Run
+		probes := sinkProbes(o.Wire)
+		for h, run := range []*result.TracerouteRun{first, second} {
+			ps := probes[h]
+			if len(ps) == 0 {
+				add("no-probes", "run %d put no probe on the wire", h+1)
+				continue
+			}
+			for i, p := range ps {
+				if p.SPort != run.Source.Port {
+					add("stale-source-port", "run %d: probe #%d (TTL %d) leaves from port %d, the run reports source port %d", h+1, i, p.TTL, p.SPort, run.Source.Port)
+					break
+				}
+				if p.FlowKey() != ps[0].FlowKey() {
+					add("flow-changed", "run %d: probe #%d belongs to flow %s, the run's first probe to %s", h+1, i, p.FlowKey(), ps[0].FlowKey())
+					break
+				}
+				if int(p.TTL) != sc.MinTTL+i {
+					add("ttl-order", "run %d: probe #%d has TTL %d", h+1, i, p.TTL)
+					break
+				}
+			}
+		}
+		if len(first.Hops) != len(second.Hops) {
+			add("second-run-differs", "first run reports %d hops, the second %d", len(first.Hops), len(second.Hops))
+		} else {
+			for i := range first.Hops {
+				a, b := first.Hops[i], second.Hops[i]
+				if (len(a.IPAddress) > 0) != (len(b.IPAddress) > 0) || a.IsDest != b.IsDest {
+					add("second-run-differs", "hop TTL %d: first run %v dest=%v, second run %v dest=%v", a.TTL, a.IPAddress, a.IsDest, b.IPAddress, b.IsDest)
+					break
+				}
+			}
+		}
+		return ds
+	})
+}
+
 func TestC06UDP6ChecksumSearch(t *testing.T) {
 	n := 900
 	if tier() == "thorough" {
 		n = 4000
 	}
 	n = envInt("VERIF_C06_SEARCH", n)
-	rec := NewRecorder("C06", "C06UDP6ChecksumSearch", fmt.Sprintf("search: %d UDP/IPv6 runs over TTL 1..255 against a silent world with generated target addresses and ports (%d probes, each with an independent 16-bit checksum; the expected number whose computed checksum is zero is %.1f); every probe is verified by the independent codec; non-trivial = the run emitted 255 well-formed probes", n, n*255, float64(n*255)/65536))
+	rec := NewRecorder("C06", "C06UDP6ChecksumSearch", fmt.Sprintf("search: %d UDP/IPv6 runs over TTL 1..255 with generated target addresses and ports, every router answering after the next probes have left (%d probes, each with an independent 16-bit checksum; the expected number whose computed checksum is zero is %.1f); every probe is verified by the independent codec and every hop against the reference (a probe whose identifier was disturbed by the zero-checksum handling is credited to the wrong TTL); non-trivial = the run emitted 255 well-formed probes", n, n*255, float64(n*255)/65536))
 	RunCases(t, rec, func(yield func(*Scenario) bool) {
 		for i := 0; i < n; i++ {
-			sc := &Scenario{Variant: "udp6", Strict: true, MinTTL: 1, MaxTTL: 255, TimeoutMs: 1, DelayMs: 0, PollMs: 100,
+			sc := &Scenario{Variant: "udp6", Strict: true, MinTTL: 1, MaxTTL: 255, TimeoutMs: 150, DelayMs: 0, PollMs: 100,
 				Target: fmt.Sprintf("2001:db8:%x:%x::%x", i&0xffff, (i*7919)&0xffff, 1+i%9), Port: 1 + (i*104729)%65535,
-				Script: FlowScript{Default: HopSpec{Silent: true}}}
+				Script: FlowScript{Default: HopSpec{DelayUs: 3000}}}
 			if !yield(sc) {
 				return
 			}
@@ -495,6 +565,10 @@ func TestC06UDP6ChecksumSearch(t *testing.T) {
 			return []Diff{{"C06", "run-error", fmt.Sprintf("udp6 run failed: %v %s", o.Err, o.Panic)}}
 		}
 		ds := CheckEmission(sc, o)
+		if o.Run != nil {
+			more, _ := CheckRun(sc, o)
+			ds = append(ds, more...)
+		}
 		rec.Case(scenarioKey(sc), len(o.Wire.Sends(0)) == 255 && len(ds) == 0, nil)
 		return ds
 	})
